@@ -25,13 +25,15 @@ LinkPlaces == {<<"T", "l">>, <<"T", "d", "l">>}
 Targets == {"file-inside", "dir-inside", "file-outside", "dir-outside", "ancestor", "dangling", "none"}
 \* GarbageCollect: everything (the link too) is older than the threshold; GarbageCollectAged: every file and directory, inside
 \* and outside, is older than the threshold but the link itself is fresh - it stays, and what it points to is not collected
-Ops == {"Rm", "RmLink", "CleanDir", "GarbageCollect", "GarbageCollectAged", "RmExcluding", "CleanDirExcluding"}
+\* RmLinkTrailing: Rm on the link written with a trailing separator ("link/"), which makes the operating system resolve it
+Ops == {"Rm", "RmLink", "RmLinkTrailing", "CleanDir", "GarbageCollect", "GarbageCollectAged", "RmExcluding", "CleanDirExcluding"}
 Patterns == {"f", "d", "l", "sub"}
 
 VARIABLES present,   \* set of optional inside nodes that exist
-          linkAt, target, op, pattern
+          linkAt, target, op, pattern,
+          fault      \* a nested entry whose removal the backend refuses (<<>> = none): the call must then not report success
 
-vars == <<present, linkAt, target, op, pattern>>
+vars == <<present, linkAt, target, op, pattern, fault>>
 
 IsPrefix(a, b) == Len(a) <= Len(b) /\ SubSeq(b, 1, Len(a)) = a
 Parent(p) == SubSeq(p, 1, Len(p) - 1)
@@ -47,7 +49,8 @@ WellFormed(S, la, tg) ==
 Init == /\ present \in SUBSET Inside /\ linkAt \in LinkPlaces /\ target \in Targets
         /\ WellFormed(present, linkAt, target)
         /\ op \in Ops /\ pattern \in Patterns
-        /\ (op = "RmLink" => target # "none")
+        /\ (op \in {"RmLink", "RmLinkTrailing"} => target # "none")
+        /\ fault \in {<<>>} \cup (IF op \in {"Rm", "CleanDir"} /\ target = "none" THEN present ELSE {})
         /\ (op \notin {"RmExcluding", "CleanDirExcluding"} => pattern = "f")     \* pattern only matters for the excluding entry points
 Next == UNCHANGED vars
 Spec == Init /\ [][Next]_vars
@@ -56,7 +59,7 @@ Nodes == {T} \cup present \cup (IF target = "none" THEN {} ELSE {linkAt})
 HasLink == target # "none"
 
 \* ---- reference semantics -------------------------------------------------------------------
-Start == IF op = "RmLink" THEN linkAt ELSE T
+Start == IF op \in {"RmLink", "RmLinkTrailing"} THEN linkAt ELSE T
 Sub(p) == {n \in Nodes : IsPrefix(p, n)}                      \* links are leaves: prefix is structure, not resolution
 Excluding == op \in {"RmExcluding", "CleanDirExcluding"}
 Aged == op = "GarbageCollectAged"
@@ -87,7 +90,10 @@ ExcludedSurvive == \A n \in Sub(Start) : Protected(n) => n \in InsideAfter
 NothingElseTouched == \A n \in Nodes \ Sub(Start) : n \in InsideAfter
 
 ToPath(p) == p
-Scenario == [present |-> present, linkAt |-> linkAt, target |-> target, op |-> op, pattern |-> (IF Excluding THEN pattern ELSE ""),
+\* with a refused removal the tree cannot be gone: success is then a lie (the expected tree stays the fault-free one, so that
+\* "success but entries remain" is what the judge sees)
+FaultMeansFailure == fault # <<>> => fault \in Removed
+Scenario == [present |-> present, linkAt |-> linkAt, target |-> target, op |-> op, pattern |-> (IF Excluding THEN pattern ELSE ""), fault |-> fault,
              after |-> After, removed |-> Removed, protected |-> {n \in Sub(Start) : Protected(n)}]
 Emit == PrintT(<<"BEHAVIOUR", ToJson(Scenario)>>)
 =============================================================================
